@@ -247,8 +247,10 @@ def synthetic_messages(seed, n, collide=True):
         if collide and i % 11 == 7:
             # an NCEP-layout table-definition message (data category 11) over ids nobody else uses
             from sim import defsim
+            # ids that no bundled table (WMO or local) defines: no pool message can depend on them
+            taken = bufrgen.all_defined_ids()
             eids = rng.sample(range(48000, 64000), rng.randint(1, 4))
-            b_entries = [defsim.gen_b_entry(rng, e) for e in eids if e % 1000 < 256]
+            b_entries = [defsim.gen_b_entry(rng, e) for e in eids if e % 1000 < 256 and e not in taken]
             if b_entries:
                 msg, _t = defsim.write_definition(rng, rng.choice([13, 13, 20, 33]), rng.choice([3, 4]), b_entries, [],
                                                   [('%03d' % rng.randint(200, 255), 'VERIF', 'POOL')])
